@@ -60,6 +60,22 @@ void hf_muladd_01(void)
     VASSERT("and congruent to a*b + c modulo L (exact integer arithmetic, every b, c below 2^256)", congruent_small_(T, O, 8 * AIDX + 14));
     VREACH("hf_muladd_01");
 }
+void hf_mul_01(void)
+{
+    VIN_GET();
+    unsigned char a[32], out[32]; memset(a, 0, 32); a[AIDX] = AVAL;
+    sc25519_mul(out, a, vin.b);
+#ifndef VNATIVE
+    bv T = AVAL ? (le_(vin.b, 32) << (8 * AIDX)) : (bv) 0, O = le_(out, 32);
+    VASSERT("sc25519_mul(a, b) for the constant a: the result is below the group order L", O < order_());
+#else
+    bv T, O = le_(out, 32), B = le_(vin.b, 32); int k; memset(&T, 0, sizeof T);
+    for (k = 0; k < AVAL; k++) { bv sh = shl_(&B, 8 * AIDX); add_(&T, &sh); }
+    VASSERT("sc25519_mul(a, b) for the constant a: the result is below the group order L", below_order_(out));
+#endif
+    VASSERT("and congruent to a*b modulo L (exact integer arithmetic, every b below 2^256)", congruent_small_(T, O, 8 * AIDX + 14));
+    VREACH("hf_mul_01");
+}
 void hf_reduce(void)
 {
     VIN_GET();
